@@ -138,6 +138,16 @@ func (p *Pool) ProcessInit(process gen.Process, args ...any) (rr error) {
 	for i := int64(0); i < options.PoolSize; i++ {
 		pid, err := p.Spawn(options.WorkerFactory, wopt, options.WorkerArgs...)
 		if err != nil {
+			// the pool process is not going to exist: take down the
+			// workers started so far (they are linked to a parent
+			// that never becomes a process and would stay for ever)
+			for {
+				v, ok := p.pool.Pop()
+				if ok == false {
+					break
+				}
+				p.Node().Kill(v.(gen.PID))
+			}
 			return err
 		}
 
